@@ -59,3 +59,37 @@ Theorem c10_released_plan_consistent :
     plan_consistent sh fin = true.
 Proof. intros d sh tr1 s1 k H I tr fin r0 r Ha Hp. exact (crash_released_plan_consistent sh tr1 s1 k H I Ha Hp d tr fin r0 r). Qed.
 Print Assumptions c10_released_plan_consistent.
+
+(* the hypotheses above are satisfiable on a REAL run, crash point and recovery of /repo (VERIF_SEED=1, plan 5004, crash
+   after write 20: a sequence durably Running whose action has a durable successful attempt) *)
+From Coercion.C10x Require Import Examples.
+Theorem c10_hypotheses_satisfiable : hyps_hold real_run real_rec 20 = true.
+Proof. exact hypotheses_satisfiable_on_a_real_recovery. Qed.
+Print Assumptions c10_hypotheses_satisfiable.
+
+(* WHAT IS NOT PROVED, kept visible.
+   (i) is complete for the FIRST crash up to the time flags (MonRecover.times_ordered: start <= end; the automaton has no
+   clock, the clause is evaluated on real recoveries only).  For the images left by a crashed RECOVERY (second and
+   later crashes) the premise "the crash image obeys Cells.icons" is not proved of the resumed automaton's durable images
+   (coq/chain proves img_wf0 of them, not icons): there (i) stays monitored.
+   (ii) "for every scope sc of the plan with a deferred group: if sc was entered - its bypass group is not Completed in
+   fin and (sc a block) the block is not NotStarted in fin - then the deferred group of sc is Completed or Failed in fin"
+   is FALSE for the automaton without deviation flags, on crash images the engine reaches, and the code does it: when
+   the repair sends Recovery straight to End (a block, or a pre / continuous / post group, durably Failed in the crash
+   image; BlockPreChecks / BlockPostChecks write the block Failed BEFORE BlockDeferredChecks runs) no deferred group
+   runs any more, and nothing is left Running, so the release needs no flag.  Listed as the second half of known finding
+   R2; MonRecover.deferred_skip_excused excuses it under dev_R2 when MonRecover.short_circuits sh I holds.  A proof of
+   (ii) needs the premise short_circuits sh I = false and, for block scopes, an engine invariant that is not available
+   (a durably Completed block was bypassed or has a Completed deferred group): (ii) stays monitored (code 14 of
+   mon_converges, on every real recovery).  The two refutations: *)
+Theorem c10_deferred_clause_refuted_without_flags_real : deferred_false_without_flags real_deferred_skipped = true.
+Proof. exact clause_ii_false_without_flags_real. Qed.
+Print Assumptions c10_deferred_clause_refuted_without_flags_real.
+
+(* ... from an engine trace the uninterrupted-run automaton accepts (tr1, 7 writes), recovery [W plan Failed; Release] *)
+Theorem c10_deferred_clause_refuted_without_flags_model :
+  (match Accept.run sh1 init tr1 with Some _ => true | None => false end)
+  && raccepts dev_none sh1 I1 tr2
+  && match converges_codes dev_none sh1 I1 tr2 Failed true with [14] => true | _ => false end = true.
+Proof. exact clause_ii_false_without_flags_model. Qed.
+Print Assumptions c10_deferred_clause_refuted_without_flags_model.
